@@ -40,11 +40,15 @@ Invoke(cap, last) ==
   /\ Live /\ (eos => last)
   /\ LET r == Decode(d, staged, cap, last, SinkName, Repl)
          ev == EvOf(r, staged, cap, last)
+         \* C19: before the call the caller asks latin1_byte_compatible_up_to about the bytes it is going to pass; Layer I's
+         \* answer in the current state is judged by the monitor and recorded with the call (lq) for the replay comparison
+         lq == DecoderLatin1(d, staged)
+         lev == [ev |-> "L", bytes |-> staged, ret |-> lq]
      IN  /\ d' = r.d
-         /\ m' = MonDecode(m, ev)
+         /\ m' = MonDecode(MonLatin1(m, lev), ev)
          /\ staged' = IF r.res = "P" THEN staged ELSE SubSeq(staged, r.read + 1, Len(staged))
          /\ eos' = (eos \/ last)
-         /\ hist' = Append(hist, ev)
+         /\ hist' = Append(hist, ev @@ [lq |-> lq])
 
 Next == (\E b \in Alphabet : Stage(b)) \/ (\E cap \in Caps, last \in BOOLEAN : Invoke(cap, last))
 
